@@ -339,6 +339,32 @@ fn lean_left(node: &Node) -> Node {
             }
             UnaryKind { kind, right } => {
                 go(right);
+                // --x prints as such and reads back as x
+                if format!("{kind:?}") == "Minus" {
+                    if let UnaryKind { kind: k2, right: inner } = (**right).clone() {
+                        if format!("{k2:?}") == "Minus" {
+                            *n = *inner;
+                            go(n);
+                            return;
+                        }
+                    }
+                }
+                // a signed number literal
+                if format!("{kind:?}") == "Minus" {
+                    if let NumberKind(x) = **right {
+                        *n = NumberKind(-x);
+                        return;
+                    }
+                }
+                // -(a*b) and (-a)*b (likewise /) are the same number, and print the same
+                if format!("{kind:?}") == "Minus" {
+                    if let OpProductKind { kind: pk, left: a, right: b } = (**right).clone() {
+                        let mut na = UnaryKind { kind: kind.clone(), right: a };
+                        go(&mut na);
+                        *n = OpProductKind { kind: pk, left: Box::new(na), right: b };
+                        return;
+                    }
+                }
                 // -(a%) and (-a)% are the same number, and print the same
                 if format!("{kind:?}") == "Minus" {
                     if let UnaryKind { kind: k2, right: inner } = (**right).clone() {
@@ -1389,8 +1415,8 @@ impl Oracle for Structural {
                     };
                     // (a defined-name leaf carries the definition of the name, which the
                     // rename rewrites when it names the sheet: not part of this formula)
-                    let want = strip_name_definitions(&rename_in(node, *sheet, name));
-                    let post_node = &strip_name_definitions(post_node);
+                    let want = lean_left(&strip_name_definitions(&rename_in(node, *sheet, name)));
+                    let post_node = &lean_left(&strip_name_definitions(post_node));
                     self.leaves_checked += 1;
                     // a reference to a sheet that did not exist comes alive when a sheet takes that name
                     let wakes = format!("{node:?}").to_lowercase().contains(&format!("sheet_name: some({:?})", name.to_lowercase()));
